@@ -57,7 +57,7 @@ fn contract_finest_order_one(_size: usize, _min_part_size: usize) -> usize {
 /// by a callee contract, the tables by `from_errors`' contract): the ORDER decision, the parameter
 /// hand-over and the independence of the finder's stale scratch, at a fraction of the cost of the
 /// 128-sample version above (which runs in the thorough tier).
-//@ unit props=C13,C10,C02 tier=quick kind=bounded timeout=900 nocontracts=1 funcs="PrcParameterFinder::find; rice::eval_partitions; rice::merge_partitions; PrcBitTable::merge; PrcBitTable::minimizer" stubs="PrcBitTable::from_errors -> some table with entries in [4, 2^28) (c13_from_errors_*); finest_partition_order -> an order whose partitions divide the block (c02_finest_partition_order_contract)" bound="block 4 in two partitions; dirty finder with 4 stale tables; tables fully symbolic"
+//@ unit props=C13,C10 tier=quick kind=bounded timeout=900 nocontracts=1 funcs="PrcParameterFinder::find; rice::eval_partitions; rice::merge_partitions; PrcBitTable::merge; PrcBitTable::minimizer" stubs="PrcBitTable::from_errors -> some table with entries in [4, 2^28) (c13_from_errors_*); finest_partition_order -> an order whose partitions divide the block (c02_finest_partition_order_contract)" bound="block 4 in two partitions; dirty finder with 4 stale tables; tables fully symbolic"
 #[kani::proof]
 #[kani::unwind(68)]
 #[kani::stub(PrcBitTable::from_errors, contract_from_errors)]
